@@ -43,6 +43,35 @@ def run(rep, tier, seed, replay):
     P = lib.Pair(exprs)
     h, m = P.h, P.m
     rep.evaluations = len(exprs)
+    # ---- the variance ALGEBRA itself, exhaustively at small scope and at the edges of the machine word, through the hook
+    # `verif_variance_op`: conjunction, disjunction and product with a repetition range, on every pair of a grid of invariant,
+    # unbounded, lower-, upper- and doubly-bounded values (the operations the depth, size and exhaustiveness folds are made of).
+    # The model's operations are the ones its theorems are about (conjFixed_sound, NVar.conj_mem, ...): same value or the same
+    # panic message.
+    if replay is None or replay["input"].get("what") == "algebra":
+        Bw, Hw = 2 ** 64 - 1, 2 ** 63
+        vals = ["inv:0", "inv:1", "inv:2", "inv:3", "inv:5", "inv:%d" % Bw, "inv:%d" % Hw, "unb", "lower:1", "lower:2", "lower:3", "lower:%d" % Bw,
+                "upper:1", "upper:2", "upper:3", "upper:5", "upper:%d" % Hw, "both:1:1", "both:1:2", "both:2:1", "both:3:2", "both:2:3",
+                "both:%d:%d" % (Hw, Hw - 1), "both:1:%d" % (Bw - 1)]
+        areqs = ["NV %s %s %s" % (op, a, b) for op in ("conj", "disj", "prod") for a in vals for b in vals] + ["NV upper %s inv:0" % a for a in vals]
+        if replay is not None:
+            areqs = [replay["input"]["request"]]
+
+        def norm(x):
+            return ("panic:" + x[6:].replace("-", " ").replace("determining ", "").strip()) if x.startswith("panic") else x
+        ai, am = h.ask(areqs), m.ask(areqs)
+        rep.evaluations += len(areqs)
+        nbad = 0
+        for rq, x, y in zip(areqs, ai, am):
+            rep.traces += 1
+            if norm(x) == norm(y):
+                rep.stats["algebra:" + x.split(":")[0]] += 1
+            else:
+                nbad += 1
+                if nbad <= 5:
+                    rep.violation("correspondence", "variance algebra: %s of the crate vs the model (exhaustive small scope)" % rq.split()[1], {"what": "algebra", "request": rq}, impl=x, model=y)
+        if nbad:
+            rep.stats["correspondence-broken"] += nbad
     built = [k for k in range(len(exprs)) if P.impl[k]["ok"]]
     md = P.model_cmd("DG", built)
     findings, _ = common.load_findings("C10")
